@@ -5,6 +5,9 @@
   ignored error;
 * exceptions escaping a reactor event are collected by SimClock.errors
   (AlreadyCalledError among them: a Deferred fired twice);
+* second-firing trap: every attempt to fire a Deferred that has already fired is recorded where it is made
+  (Deferred._startRunCallbacks is wrapped for the duration), also when the AlreadyCalledError it raises is
+  swallowed further up by an errback chain and never reaches the reactor;
 * afkak's own ERROR-level log records are kept as diagnostics (never a
   verdict by themselves).
 """
@@ -30,7 +33,9 @@ class Traps(object):
     def __init__(self):
         self.unhandled = []  # (exception type name, short text)
         self.errors_logged = []
+        self.second_firings = []  # (innermost afkak frame "file:function", brief stack)
         self._handler = _ListHandler(self.errors_logged)
+        self._orig_start = None
 
     def _observe(self, event):
         f = event.get("log_failure")
@@ -47,8 +52,43 @@ class Traps(object):
                 tb = ""
             self.unhandled.append((f.type.__name__ if f.type else "?", str(f.value)[:200], tb))
 
+    def _patch(self):
+        import sys
+        from twisted.internet.defer import Deferred
+        traps = self
+        orig = Deferred._startRunCallbacks
+        self._orig_start = orig
+
+        def _startRunCallbacks(d, result):
+            if d.called:
+                try:
+                    fr = sys._getframe(1)
+                    stack = []
+                    where = None
+                    while fr is not None and len(stack) < 12:
+                        fn = fr.f_code.co_filename
+                        if "/afkak/" in fn and "/afkverif/" not in fn:
+                            tag = "%s:%s" % (fn.rsplit("/", 1)[-1], fr.f_code.co_name)
+                            stack.append(tag)
+                            if where is None:
+                                where = tag
+                        fr = fr.f_back
+                    if where is not None:
+                        traps.second_firings.append((where, " < ".join(stack)))
+                except Exception:
+                    pass
+            return orig(d, result)
+        Deferred._startRunCallbacks = _startRunCallbacks
+
+    def _unpatch(self):
+        if self._orig_start is not None:
+            from twisted.internet.defer import Deferred
+            Deferred._startRunCallbacks = self._orig_start
+            self._orig_start = None
+
     def __enter__(self):
         gc.collect()
+        self._patch()
         globalLogPublisher.addObserver(self._observe)
         logging.getLogger("afkak").addHandler(self._handler)
         return self
@@ -57,6 +97,7 @@ class Traps(object):
         gc.collect()
 
     def __exit__(self, *exc):
+        self._unpatch()
         gc.collect()
         globalLogPublisher.removeObserver(self._observe)
         logging.getLogger("afkak").removeHandler(self._handler)
